@@ -32,6 +32,8 @@ def population(tier, seed):
             g = gen.recovery_shapes(rng, i)
         elif r < 0.2:
             g = gen.ascent_slots(rng, i)
+        elif r < 0.24:
+            g = gen.merged_brackets(rng, i)
         elif r < 0.55:
             g = gen.random_grammar(rng, i, max_nt=3, max_t=3, max_prods=7, max_rhs=3,
                                    starts=(2 if rng.random() < 0.2 else 1))
@@ -40,8 +42,14 @@ def population(tier, seed):
                                    starts=(2 if rng.random() < 0.2 else 1))
         else:
             g = gen.random_grammar(rng, i, max_nt=2, max_t=2, max_prods=5, max_rhs=3, p_empty=0.3)
+        if i in (7, 8):
+            g = gen.many_productions(i, total=128 if i == 7 else 127)   # around the i8 boundary of the table cell type
         g["id"] = "c%04d" % i
-        if not g.get("recovery") and rng.random() < 0.25:
+        if g["id"] in ("c0007", "c0008"):
+            cg = core.annotate(g, rng, p_loc=0.0, p_fallible=0.0)
+            pop.append(cg)
+            continue
+        if not g.get("recovery") and not g.get("bound") and rng.random() < 0.25:
             g = core.add_recovery(g, rng)
         if rng.random() < 0.3:
             g = core.add_markers(g, rng)
@@ -92,6 +100,7 @@ def run_batch(cgs, tier, seed, keep_dir=None, variants_fn=None, owner=None, debu
     recs, states, generated = eng_core.run_eval(cases)
     lr1 = eng_core.run_eval.lr1
     reduced = eng_core.run_eval.reduced
+    spec_types = dict(eng_core.run_eval.types)
     usable = [cg for cg in cgs if all(lr1.get("%s@%s" % (cg["id"], s)) for s in cg["starts"])]
     # long inputs (sentences by random derivation and single-token mutations of them): one behaviour each
     longs = {}
@@ -152,7 +161,7 @@ def run_batch(cgs, tier, seed, keep_dir=None, variants_fn=None, owner=None, debu
             cg = byid[gid]
             if cg.get("names") or backend != "table":
                 continue
-            spec_t = eng_core.run_eval.types.get("%s@%s" % (gid, cg["starts"][0]))
+            spec_t = spec_types.get("%s@%s" % (gid, cg["starts"][0]))
             if not spec_t:
                 continue
             ntypes += len(spec_t)
